@@ -793,6 +793,7 @@ pub fn run(tier_name: &str, seed: u64) -> i32 {
                 tally.bump("fault_clock_leap_fired", c.n_clock_jumps_fired);
                 tally.bump("simulated_time_us", c.clock_ns.saturating_sub(1_000_000_000) / 1000);
                 tally.bump("par_calls", c.n_par_calls);
+                tally.bump("work_steals_while_blocked_ran", c.n_steals_ran);
                 tally.bump("par_calls_multiworker", c.n_par_multiworker);
                 tally.bump("find_any_races", c.n_find_any_races);
                 tally.bump("find_any_races_with_several_hits", c.n_find_any_multi);
